@@ -4,6 +4,7 @@ import (
 	"fmt"
 	"sort"
 	"strings"
+	"sync/atomic"
 	"time"
 
 	"github.com/anishathalye/porcupine"
@@ -118,7 +119,7 @@ type seqModel struct {
 	w     *World
 	ops   map[int]*Op // global op id -> op
 	memo  map[string][2]string
-	evals int
+	evals atomic.Int64 // the checker goroutine may still be winding down after a timeout
 }
 
 func opID(task, idx int) int { return task*1000 + idx }
@@ -144,7 +145,7 @@ func (m *seqModel) eval(state string, id int) (out, next string) {
 	if v, ok := m.memo[key]; ok {
 		return v[0], v[1]
 	}
-	m.evals++
+	m.evals.Add(1)
 	e, r := m.build(state)
 	op := m.ops[id]
 	out = perform(e, r, op)
@@ -182,7 +183,7 @@ func checkLinearizable(w *World, logs []opLog, st *Stats) (porcupine.CheckResult
 		Equal: func(a, b interface{}) bool { return a.(string) == b.(string) },
 	}
 	simrt.SetPoolCfg(simrt.PoolCfg{Fresh: 1, Drop: 100})
-	res := porcupine.CheckOperationsTimeout(model, ops, 10*time.Second)
+	res := porcupine.CheckOperationsTimeout(model, ops, 4*time.Second)
 	return res, m
 }
 
@@ -268,6 +269,9 @@ func genC06(r *Rng, idx int, tier string) *World {
 	}
 	nW, nR := r.Range(1, 3), r.Range(1, 4)
 	budget := 16
+	if tier == "thorough" && r.Pct(50) {
+		nW, nR, budget = r.Range(2, 3), r.Range(2, 5), 22 // writers stay <= 3: the linearizability search grows with the number of concurrent mutations
+	}
 	for t := 0; t < nW; t++ {
 		var ops []Op
 		n := r.Range(1, 4)
@@ -359,7 +363,7 @@ func execC06(w *World, st *Stats) (*Violation, RunInfo) {
 		}
 	}
 	res, m := checkLinearizable(w, logs, st)
-	st.CN("replica_evals", int64(m.evals))
+	st.CN("replica_evals", m.evals.Load())
 	switch res {
 	case porcupine.Illegal:
 		return mk("linearizability", "not-linearizable", "no sequential order of the operations, consistent with their real-time order, produces these responses on a sequential replica:"+describeHistory(logs)), info
